@@ -865,6 +865,8 @@ class Exec(Path):
                     cnode, owner = self.repo.lookup_class_attr(ci, attr)
                     if cnode is not None:
                         return self.eval_const_expr(cnode, owner.module)
+                else:
+                    return VBuiltin("method:" + attr, bound=obj)
                 self.raise_("AttributeError", VStr(attr))
             return VBuiltin("method:" + attr, bound=obj)
         if isinstance(obj, VClass):
@@ -1032,6 +1034,8 @@ class Exec(Path):
             if isinstance(h, HBytes):
                 k = self.norm_index(self.as_int(key), z3.Length(h.t))
                 return VInt(h.t[k])
+            if isinstance(h, HObj) and isinstance(h.cls, str) and ("obj:" + h.cls, "__getitem__") in self.reg.methods:
+                return self.reg.methods[("obj:" + h.cls, "__getitem__")](self, obj, [key], {})
         raise Unsupported(f"subscript of {obj!r}")
 
     def norm_index(self, k, ln):
@@ -1391,6 +1395,18 @@ class Exec(Path):
                 self.restore_env(sv)
                 return v
             return self.alloc(HList(rule=(ln, rule)))
+        if len(n.generators) == 1 and len(n.generators[0].ifs) == 1:
+            g = n.generators[0]
+            tgt, cond = g.target, g.ifs[0]
+            if (isinstance(tgt, ast.Name) and isinstance(cond, ast.Name) and cond.id == tgt.id
+                    and isinstance(n.elt, ast.Name) and n.elt.id == tgt.id):
+                src = self.iter_source(self.eval(g.iter))
+                if src["kind"] != "concrete":
+                    # [x for x in X if x]  ==  filter_truthy(X)   (uninterpreted, shared with the spec functions)
+                    srcv = self.eval(g.iter)
+                    h = self.deref(srcv)
+                    f = self.engine.uf("filter_truthy", PVSEQ, PVSEQ)
+                    return self.alloc(HList(seq=f(self.list_seq(h))))
         # general case: nested generators / filters over concrete sources
         out = []
 
@@ -1469,6 +1485,8 @@ class Exec(Path):
             return self.call_repo(f.info, args, kwargs)
         if isinstance(f, VClass):
             return self.instantiate(f, args, kwargs)
+        if isinstance(f, VBox) and self.ghost.get("opaque_callable"):
+            return self.ghost["opaque_callable"](self, args)
         if isinstance(f, VModule):
             if f.name in self.reg.externals:
                 return self.reg.externals[f.name](self, args, kwargs)
@@ -1500,6 +1518,8 @@ class Exec(Path):
         kind = recv.kind
         if isinstance(recv, VRef):
             kind = type(self.heap[recv.rid]).__name__
+            if kind == "HObj" and isinstance(self.heap[recv.rid].cls, str):
+                kind = "obj:" + self.heap[recv.rid].cls
         fn = self.reg.methods.get((kind, name))
         if fn is None:
             raise Unsupported(f"method {kind}.{name}")
@@ -1558,7 +1578,11 @@ class Exec(Path):
         if c is not None and not c.inline:
             return self.apply_contract(info, c, bound)
         if c is None and info.qualname not in self.engine.inline_ok:
-            raise Unsupported(f"call of {info.qualname} which has no contract (unresolved-call)")
+            # a repository function without a contract (e.g. a helper introduced by a refactoring) is inlined when it is
+            # not on the current call stack; recursion without a contract stays an unresolved call
+            if any(fr.get("info") is info for fr in self.func_stack):
+                raise Unsupported(f"recursive call of {info.qualname} which has no contract (unresolved-call)")
+            self.engine.inlined.add(info.qualname)
         return self.inline_call(info, c, bound)
 
     def inline_call(self, info, c, bound):
@@ -1596,10 +1620,12 @@ class Exec(Path):
                     self.oblige(f"at call {info.name}:{lab}", "call-site", self.eval_contract_expr(expr), props,
                                 note=f"line {getattr(self, 'cur_line', '?')}")
             old = self.snapshot()
+            if c.variants:
+                vnames = {k for var in c.variants for k in var if not k.startswith("_")}
+                for k, v in list(bound.items()):
+                    if isinstance(v, VBox) and k in vnames:
+                        bound[k] = self.env[k] = self.unbox(v)
             vi = c.select_variant(self, bound)
-            for k, v in list(bound.items()):
-                if isinstance(v, VBox):
-                    self.env[k] = self.unbox(v)
             # exceptional outcomes
             for exc_name, spec in c.raises.items():
                 when = spec.get("when")
